@@ -124,30 +124,40 @@ class Src:
             raise LostAnchor('%s: %s matched %d times in %s' % (what, rx, len(hits), self.path))
         return hits[0]
 
+    def impl_ranges(self, header_rx):
+        """all impl blocks whose header matches (masked text, must be followed by '{')."""
+        out = []
+        for mo in re.compile(r'^[ \t]*' + header_rx + r'(?:\s+where\b[^{;]*)?\s*\{', re.M).finditer(self.m):
+            ob = mo.end() - 1
+            out.append((mo.start(), ob, match_close(self.m, ob)))
+        if not out:
+            raise LostAnchor('impl: %s matched 0 times in %s' % (header_rx, self.path))
+        return out
+
     def impl_range(self, header_rx):
-        """header_rx is matched against masked text, must be followed by '{'."""
-        mo = self._uniq(r'^[ \t]*' + header_rx + r'(?:\s+where\b[^{;]*)?\s*\{', 0, len(self.m), 'impl')
-        ob = mo.end() - 1
-        cb = match_close(self.m, ob)
-        return mo.start(), ob, cb
+        r = self.impl_ranges(header_rx)
+        if len(r) != 1:
+            raise LostAnchor('impl: %s matched %d times in %s' % (header_rx, len(r), self.path))
+        return r[0]
 
     def fn_item(self, name, impl_rx=None, depth0=True):
-        lo, hi = 0, len(self.m)
-        if impl_rx:
-            _, lo, hi = self.impl_range(impl_rx)
         rx = r'^[ \t]*((pub(\([a-z:]+\))?\s+)?(const\s+)?(async\s+)?fn\s+' + re.escape(name) + r')\b'
         hits = []
-        for mo in re.compile(rx, re.M).finditer(self.m, lo, hi):
-            hits.append(mo)
         if impl_rx is None:
+            lo, hi = 0, len(self.m)
             # free fn: keep only those at brace depth 0
-            hits = [h for h in hits if self.m.count('{', 0, h.start()) == self.m.count('}', 0, h.start())]
+            hits = [(h, hi) for h in re.compile(rx, re.M).finditer(self.m, lo, hi)
+                    if self.m.count('{', 0, h.start()) == self.m.count('}', 0, h.start())]
         else:
-            # depth exactly 1 inside the impl
-            hits = [h for h in hits if self.m.count('{', lo, h.start()) - self.m.count('}', lo, h.start()) == 1]
+            # a type may have several impl blocks with the same header: the fn must be unique among them
+            for _, lo, hi in self.impl_ranges(impl_rx):
+                for h in re.compile(rx, re.M).finditer(self.m, lo, hi):
+                    # depth exactly 1 inside the impl
+                    if self.m.count('{', lo, h.start()) - self.m.count('}', lo, h.start()) == 1:
+                        hits.append((h, hi))
         if len(hits) != 1:
             raise LostAnchor('fn %s (impl %s) matched %d times in %s' % (name, impl_rx, len(hits), self.path))
-        mo = hits[0]
+        mo, hi = hits[0]
         s = mo.start(1)
         # find the body '{' : first '{' at paren depth 0 after the signature
         i = mo.end()
